@@ -68,11 +68,21 @@ class World:
 
 
 def mk_cell(pos, value=None, style=0):
+    """addressing spellings: 0 numbers; 1 title + letters + row text; 2 sheet number + letters + row text;
+    3 title + numeric column and row, and the Cell has been hashed before it is handed over (a caller that kept its cells in a set)"""
     s, c, r = pos
+    style = style % 4 if style > 2 else style
     if style == 0:
         return Cell(s - 1, c - 1, r - 1, value)
     if style == 1:
         return Cell(TITLES[s], repo.col_letters(c), str(r), value)
+    if style == 3:
+        cell = Cell(TITLES[s], c - 1, r - 1, value)
+        try:
+            {cell}
+        except Exception:
+            pass
+        return cell
     return Cell(s - 1, repo.col_letters(c), str(r), value)
 
 
